@@ -203,4 +203,53 @@ def startNode (s : Stores) : Start :=
       | none => .panicNoSeenCommit
       | some c => if c.height = st.lastBlockHeight ∧ c.blockHash = st.lastBlockID then .ok else .panicWrongCommit
 
+/-! ## the hand-over with FAILING steps (I/O errors), not only crashes -/
+
+/-- the individual writes of `Bootstrap`, in its order -/
+def bootWrites (st : LcState) : List (Stores → Stores) :=
+  let height := if st.lastBlockHeight + 1 = 1 then st.initialHeight else st.lastBlockHeight + 1
+  let w0 : Stores → Stores := fun s => { s with vals := upd s.vals (height - 1) (some st.lastValidators) }
+  let w1 : Stores → Stores := fun s => { s with vals := upd s.vals height (some st.validators) }
+  let w2 : Stores → Stores := fun s => { s with vals := upd s.vals (height + 1) (some st.nextValidators) }
+  let pinfo := (st.lastHeightParamsChanged, if st.lastHeightParamsChanged = height then some st.params else none)
+  let w3 : Stores → Stores := fun s => { s with params := upd s.params height (some pinfo) }
+  let w4 : Stores → Stores := fun s => { s with state := some st }
+  (if height > 1 ∧ st.lastValidators ≠ [] then [w0] else []) ++ [w1, w2, w3, w4]
+
+/-- `Bootstrap` whose `failAt`-th database write (1-based; 0 = none) fails: the earlier writes
+stay, the call returns an error -/
+def bootstrapFailing (s : Stores) (st : LcState) (failAt : Nat) : Stores × Bool :=
+  let ws := bootWrites st
+  if failAt = 0 ∨ failAt > ws.length then (ws.foldl (fun s w => w s) s, true)
+  else ((ws.take (failAt - 1)).foldl (fun s w => w s) s, false)
+
+/-- which steps fail -/
+structure Faults where
+  seenFails : Bool        -- `SaveSeenCommit` returns an error (nothing written)
+  bootFailAt : Nat        -- the k-th write of `Bootstrap` fails (0 = none)
+  switchFails : Bool      -- `SwitchToFastSync` returns an error
+
+/-- what `startStateSync` does with each error (read from its source by the harness and from the
+regenerated facts by the driver) -/
+structure HandCode where
+  commitFirst : Bool
+  seenErrReturns : Bool
+  bootErrReturns : Bool
+
+/-- the hand-over after a successful `Sync`: the stores afterwards and whether the node switched
+to block sync -/
+def handOver (code : HandCode) (f : Faults) (st : LcState) (c : LcCommit) : Stores × Bool :=
+  let doSeen := fun (s : Stores) => if f.seenFails then (s, false) else (saveSeenCommit s st.lastBlockHeight c, true)
+  let doBoot := fun (s : Stores) => bootstrapFailing s st f.bootFailAt
+  let step1 := if code.commitFirst then doSeen else doBoot
+  let step2 := if code.commitFirst then doBoot else doSeen
+  let ret1 := if code.commitFirst then code.seenErrReturns else code.bootErrReturns
+  let ret2 := if code.commitFirst then code.bootErrReturns else code.seenErrReturns
+  let (s1, ok1) := step1 Stores.empty
+  if !ok1 && ret1 then (s1, false)
+  else
+    let (s2, ok2) := step2 s1
+    if !ok2 && ret2 then (s2, false)
+    else (s2, !f.switchFails)
+
 end Tmv.StateSync
